@@ -1,11 +1,15 @@
 /-
-JSON values as `encoding/json` sees them for the poly structs, a compact printer, and the
-shape of the regenerated struct tables (`Gen/PolyStructs.lean`).
+JSON values as `encoding/json` sees them for the poly structs, a printer for them (compact: `JVal.print`, the text
+`json.Marshal` writes, Go's string escapes included; with a layout: `JVal.printL`, `JVal.printIndent` = the text
+`json.MarshalIndent(v, "", " ")` writes), and the shape of the regenerated struct tables (`Gen/PolyStructs.lean`).
 
-Strings are lists of Unicode code points (`S`), not `List Char`: property C15 names
-non-ASCII text, and the text layer of `encoding/json` (UTF-8, escaping) is outside the
-model — it is tied by correspondence only.  Numbers are integers: the poly structs contain
-no float field (the regenerated table says so; any other kind is `PKind.other`).
+Strings are lists of code points (`S = List Nat`), not `List Char`: property C15 names non-ASCII text.  Two things
+follow: the theorems about these functions (Lemmas/JsonText.lean: the reader of Base/JsonRead.lean reads back everything
+the printers write) quantify over ALL lists of naturals, also over "code points" that no Go string holds (surrogates
+0xD800–0xDFFF, values above 0x10FFFF) and for which Go would write U+FFFD — Go strings are the lists of scalar values;
+and the UTF-8 encoding of code points into bytes is below the model (the correspondence compares decoded text).
+Numbers are integers: the poly structs contain no float field (the regenerated table says so; any other kind is
+`PKind.other`).
 -/
 namespace PolyVerif
 
@@ -43,6 +47,8 @@ structure PField where
   omitempty : Bool
   kind : PKind
   flags : List String
+  /-- Go names of the field's type and of every type nested in it (slice / array / pointer element, map key and element) -/
+  typs : List String := []
   deriving DecidableEq, Repr
 
 def ofStr (s : String) : S := s.toList.map Char.toNat
@@ -133,5 +139,43 @@ def JVal.printMembersTail : List (S × JVal) → S
   | [] => [125]
   | (k, v) :: ms => 44 :: (quoteJson k ++ 58 :: (JVal.print v ++ JVal.printMembersTail ms))
 end
+
+/-! ### printer with a layout (blanks between tokens), e.g. `json.MarshalIndent` -/
+
+/-- where a JSON writer may put blanks: after `[` / `{` / `,` (before the element or member at nesting depth `d`),
+before the closing `]` / `}` of a container at depth `d`, and after `:` -/
+structure Layout where
+  opn : Nat → S
+  cls : Nat → S
+  col : S
+
+mutual
+/-- the value at nesting depth `d` under layout `L`; empty containers are written `[]` / `{}` unbroken -/
+def JVal.printL (L : Layout) : Nat → JVal → S
+  | _, .null => [110, 117, 108, 108]
+  | _, .bool true => [116, 114, 117, 101]
+  | _, .bool false => [102, 97, 108, 115, 101]
+  | _, .num n => intDigits n
+  | _, .str s => quoteJson s
+  | _, .arr [] => [91, 93]
+  | d, .arr (x :: xs) => 91 :: (L.opn d ++ (JVal.printL L (d + 1) x ++ JVal.printTailL L d xs))
+  | _, .obj [] => [123, 125]
+  | d, .obj ((k, v) :: ms) =>
+    123 :: (L.opn d ++ (quoteJson k ++ 58 :: (L.col ++ (JVal.printL L (d + 1) v ++ JVal.printMembersTailL L d ms))))
+def JVal.printTailL (L : Layout) : Nat → List JVal → S
+  | d, [] => L.cls d ++ [93]
+  | d, x :: xs => 44 :: (L.opn d ++ (JVal.printL L (d + 1) x ++ JVal.printTailL L d xs))
+def JVal.printMembersTailL (L : Layout) : Nat → List (S × JVal) → S
+  | d, [] => L.cls d ++ [125]
+  | d, (k, v) :: ms =>
+    44 :: (L.opn d ++ (quoteJson k ++ 58 :: (L.col ++ (JVal.printL L (d + 1) v ++ JVal.printMembersTailL L d ms))))
+end
+
+/-- `json.MarshalIndent(v, "", " ")` (what `polyjson.Write` stores): a newline and one blank per nesting level before every
+element / member and before the closing bracket, one blank after `:` -/
+def indentLayout : Layout :=
+  { opn := fun d => 10 :: List.replicate (d + 1) 32, cls := fun d => 10 :: List.replicate d 32, col := [32] }
+
+def JVal.printIndent (v : JVal) : S := JVal.printL indentLayout 0 v
 
 end PolyVerif
